@@ -41,6 +41,10 @@ func libValue(v ssa.Value, depth int) (bool, string) {
 		if f != nil && IsModuleFunc(f) && !isCmdPkg(RelPkg(f)) {
 			return true, FuncKey(f)
 		}
+		// a helper of the command that hands one of its arguments back unchanged (a `must` wrapper)
+		if through := seeThroughHelper(x); through != ssa.Value(x) {
+			return libValue(through, depth+1)
+		}
 		return false, "result of " + calleeName(x) + " (not a library function)"
 	case *ssa.Phi:
 		for _, e := range x.Edges {
@@ -454,7 +458,7 @@ func producesText(fn *ssa.Function) bool {
 			if call, ok := ins.(*ssa.Call); ok {
 				if f := call.Call.StaticCallee(); f != nil && IsModuleFunc(f) && !isCmdPkg(RelPkg(f)) && resultHasError(f.Signature) >= 0 {
 					for _, ref := range nonDebugRefs(call) {
-						if ex, ok := ref.(*ssa.Extract); ok && !isErrorType(ex.Type()) && len(nonDebugRefs(ex)) > 0 {
+						if ex, ok := ref.(*ssa.Extract); ok && !isErrorType(ex.Type()) && reallyUsed(ex, 0) {
 							return true
 						}
 					}
@@ -570,6 +574,23 @@ func fileTextCall(call *ssa.Call, index int, depth int) (bool, string) {
 	}
 	f := call.Call.StaticCallee()
 	if f != nil && IsModuleFunc(f) && isCmdPkg(RelPkg(f)) && f.Blocks != nil {
+		// a helper that hands one of its arguments back unchanged: follow that argument at this call site
+		var asValue ssa.Value = call
+		if call.Call.Signature().Results().Len() > 1 {
+			asValue = nil
+			if refs := call.Referrers(); refs != nil {
+				for _, ref := range *refs {
+					if ex, ok := ref.(*ssa.Extract); ok && ex.Index == index {
+						asValue = ex
+					}
+				}
+			}
+		}
+		if asValue != nil {
+			if through := seeThroughHelper(asValue); through != asValue {
+				return fileTextOrigin(through, depth+1)
+			}
+		}
 		n := 0
 		for _, b := range f.Blocks {
 			for _, ins := range b.Instrs {
@@ -586,4 +607,30 @@ func fileTextCall(call *ssa.Call, index int, depth int) (bool, string) {
 		}
 	}
 	return false, "it is the result of " + name
+}
+
+// reallyUsed: the value is used for something else than being handed to a helper that gives it back unchanged and whose
+// own result is not used (helpers.Must(lib(...)) as a statement only checks the error).
+func reallyUsed(v ssa.Value, depth int) bool {
+	if depth > 4 {
+		return true
+	}
+	for _, ref := range nonDebugRefs(v) {
+		call, ok := ref.(*ssa.Call)
+		if !ok {
+			return true
+		}
+		f := call.Call.StaticCallee()
+		if f == nil || !IsModuleFunc(f) || !isCmdPkg(RelPkg(f)) {
+			return true
+		}
+		if call.Call.Signature().Results().Len() == 1 && seeThroughHelper(call) == v {
+			if reallyUsed(call, depth+1) {
+				return true
+			}
+			continue
+		}
+		return true
+	}
+	return false
 }
